@@ -26,6 +26,7 @@ ASSUMPTIONS = [
     "with ignore_billing_period_gap_for_day_count the max_days window is counted from the last (first) data timestamp inside the requested limit, as the docstring says",
     "nearest-boundary ties may resolve either way",
 ]
+REQUIRED_REACH_THOROUGH = {"repo_tests.contract.baseline.post": 10, "repo_tests.contract.reporting.post": 10}
 REQUIRED_REACH = {"contract.baseline.post": 200, "contract.reporting.post": 200, "outcome.dedicated_error": 5,
                   "clause.leak": 300, "clause.gap_warning_owed": 20}
 
@@ -265,12 +266,21 @@ def _cut(rng, data):
 
 def gen_cases(tier, seed):
     n = 16 if tier == "quick" else 208
-    return [dict(kind="batch", n=260, batch=b) for b in range(n)]
+    cases = [dict(kind="batch", n=260, batch=b) for b in range(n)]
+    if tier == "thorough":
+        cases.append(dict(kind="repo-tests", batch=-1, timeout=3000))
+    return cases
 
 
 def run_case(spec):
     from opendsm.eemeter.common.exceptions import NoBaselineDataError, NoReportingDataError
     import opendsm.eemeter as em
+    if spec["kind"] == "repo-tests":
+        from vf.pytest_contracts import repo_tests_case
+        res = repo_tests_case(ID, ["tests/test_transform.py", "tests/test_derivatives.py"])
+        reach = {"repo_tests." + k: n for k, n in res["reach"].items() if k.startswith("contract.")}
+        return dict(viol=[dict(v, where="repository's own tests under contracts") for v in res["viol"].get(ID, [])], reach=reach, keys=["repo-tests"],
+                    hist={"outcome": {}, "cut": {}, "series": {}}, events=sum(reach.values()))
     rng = rng_for(spec["seed"], ID, spec["batch"])
     viol, keys, hist = [], set(), {"outcome": {}, "cut": {}, "series": {}}
     for it in range(spec["n"]):
